@@ -74,26 +74,26 @@ fn flips(seed: u64, shard: usize, rounds: usize, rep: &mut Report) {
             }
         };
         let m = WithRate::new(rate);
-        judge_bits("WithRate/Vec<bool>", catch(|| m.mutate(bits.clone(), &mut TraceRng::new(s)).map_err(|e| format!("{e:?}"))), Some(rate), rep);
+        judge_bits("WithRate/Vec<bool>", catch(|| m.mutate(bits.clone(), &mut TraceRng::stream(s)).map_err(|e| format!("{e:?}"))), Some(rate), rep);
         judge_bits(
             "WithRate/Bitstring",
-            catch(|| m.mutate(Bitstring { bits: bits.clone() }, &mut TraceRng::new(s)).map(|b| b.bits).map_err(|e| format!("{e:?}"))),
+            catch(|| m.mutate(Bitstring { bits: bits.clone() }, &mut TraceRng::stream(s)).map(|b| b.bits).map_err(|e| format!("{e:?}"))),
             Some(rate),
             rep,
         );
         // 1/len: rate 1 for length 1 (all flipped), nothing to do for length 0
         let one_over = if len == 1 { Some(1.0) } else { None };
-        judge_bits("WithOneOverLength/Vec<bool>", catch(|| WithOneOverLength.mutate(bits.clone(), &mut TraceRng::new(s)).map_err(|e| format!("{e:?}"))), one_over, rep);
+        judge_bits("WithOneOverLength/Vec<bool>", catch(|| WithOneOverLength.mutate(bits.clone(), &mut TraceRng::stream(s)).map_err(|e| format!("{e:?}"))), one_over, rep);
         judge_bits(
             "WithOneOverLength/Bitstring",
-            catch(|| WithOneOverLength.mutate(Bitstring { bits: bits.clone() }, &mut TraceRng::new(s)).map(|b| b.bits).map_err(|e| format!("{e:?}"))),
+            catch(|| WithOneOverLength.mutate(Bitstring { bits: bits.clone() }, &mut TraceRng::stream(s)).map(|b| b.bits).map_err(|e| format!("{e:?}"))),
             one_over,
             rep,
         );
         // custom Not gene: positions must stay in place
         rep.eval();
         rep.count("WithRate/Vec<Flag>");
-        match catch(|| m.mutate(flags.clone(), &mut TraceRng::new(s))) {
+        match catch(|| m.mutate(flags.clone(), &mut TraceRng::stream(s))) {
             Ok(Ok(c)) => {
                 if c.len() != len || c.iter().enumerate().any(|(i, f)| f.pos as usize != i) {
                     rep.violation("C11/WithRate/Vec<Flag>/moved", || json!({"config": cfg, "child": format!("{c:?}")}));
@@ -103,7 +103,7 @@ fn flips(seed: u64, shard: usize, rounds: usize, rep: &mut Report) {
         }
         rep.eval();
         rep.count("WithOneOverLength/Vec<Flag>");
-        match catch(|| WithOneOverLength.mutate(flags.clone(), &mut TraceRng::new(s))) {
+        match catch(|| WithOneOverLength.mutate(flags.clone(), &mut TraceRng::stream(s))) {
             Ok(Ok(c)) => {
                 if c.len() != len || c.iter().enumerate().any(|(i, f)| f.pos as usize != i) {
                     rep.violation("C11/WithOneOverLength/Vec<Flag>/moved", || json!({"config": cfg, "child": format!("{c:?}")}));
@@ -290,7 +290,7 @@ fn umad_round(g: &mut Xo, rep: &mut Report) {
     let gen = SerialGen { next: Cell::new(first_serial) };
     let parent: Vector<UGene> = (0..len as u32).map(UGene::Parent).collect();
     let out = catch(|| {
-        let mut rng = TraceRng::new(s);
+        let mut rng = TraceRng::stream(s);
         match cfg.ctor {
             0 => Umad::new(cfg.add, cfg.del, &gen).mutate(parent.clone(), &mut rng),
             1 => Umad::new_with_empty_rate(cfg.add, cfg.empty.unwrap_or(0.0), cfg.del, &gen).mutate(parent.clone(), &mut rng),
@@ -335,7 +335,7 @@ fn umad_round(g: &mut Xo, rep: &mut Report) {
         rep.count("Umad/Plushy:parent-with-close-genes");
     }
     let out = catch(|| {
-        let mut rng = TraceRng::new(s);
+        let mut rng = TraceRng::stream(s);
         match cfg.ctor {
             0 => Umad::new(cfg.add, cfg.del, &gen).mutate(parent.clone(), &mut rng),
             1 => Umad::new_with_empty_rate(cfg.add, cfg.empty.unwrap_or(0.0), cfg.del, &gen).mutate(parent.clone(), &mut rng),
